@@ -26,6 +26,8 @@ package bmp
 //@   ensures 0 <= advance && advance <= len(data)
 //@   ensures len(token) <= len(data)
 //@   ensures token != nil ==> advance == len(token)
+// a token is a whole message - never less than the common header (an empty token with no advance stalls a scanner)
+//@   ensures token != nil ==> advance >= BMP_HEADER_SIZE
 
 //@ func (*BMPStatsTLV32).ParseValue
 //@   requires len(data) >= int(s.Length)
